@@ -179,9 +179,9 @@ fn run_case_inner(rec: &mut Rec, d: &Value) {
             for rj in d["rects"].as_array().unwrap() {
                 let r = rect_from(rj);
                 let corner = Point::new((r.top_left.x as i64 + r.size.width as i64 - 1) as i32, (r.top_left.y as i64 + r.size.height as i64 - 1) as i32);
-                match catch(|| (r.bottom_right(), r.contains(corner), r.contains(r.top_left))) {
-                    Ok((br, c1, c2)) => items.push(json!([rect_json(&r), br.map_or(json!([]), pt_json), c1 as i32, c2 as i32, 0])),
-                    Err(_) => items.push(json!([rect_json(&r), [], 0, 0, 1])),
+                match catch(|| (r.bottom_right(), r.contains(corner), r.contains(r.top_left), r.points().count())) {
+                    Ok((br, c1, c2, n)) => items.push(json!([rect_json(&r), br.map_or(json!([]), pt_json), c1 as i32, c2 as i32, 0, n])),
+                    Err(_) => items.push(json!([rect_json(&r), [], 0, 0, 1, 0])),
                 }
             }
             rec.ev("edge", json!({ "items": items }));
